@@ -492,10 +492,17 @@ def _hist_parts(k, plen, extra_cfgs, roles=None, base=None):
 def _hist_spec(harness, tier, what, extra_cfgs, extra_conds=(), base=None):
     q = tier == 'quick'
     k = 3 if q else 4
-    parts = _hist_parts(k, 1 if q else 2, extra_cfgs if not q else extra_cfgs[:1], base=base)
-    if q and extra_cfgs:
-        # quick: the extra configurations with one event less
-        parts = _hist_parts(k, 1, [], base=base) + [dict(p, k=2) for p in _hist_parts(2, 1, extra_cfgs, base=base) if len(p) > 3 + len(base or {})]
+    simple = ('rr_req', 'rs_req', 'rr_resp', 'rs_resp')
+    chan = ('ch_req', 'ch_resp')
+    if q:
+        # quick: k=3 in the plain configuration, the extra configurations with one event less
+        parts = _hist_parts(3, 1, [], base=base)
+        parts += [p for p in _hist_parts(2, 1, extra_cfgs, base=base) if any(p.get(c) for cfg in extra_cfgs for c in cfg)]
+    else:
+        # thorough: k=4 for the request-response / request-stream roles, k=3 for the (much larger) channel roles,
+        # the extra configurations at k=3 for every role
+        parts = _hist_parts(4, 2, [], roles=simple, base=base) + _hist_parts(3, 1, [], roles=chan, base=base)
+        parts += [p for p in _hist_parts(3, 1, extra_cfgs, base=base) if any(p.get(c) for cfg in extra_cfgs for c in cfg)]
     return dict(
         conds=[Cond(harness, 'c_history', parts=parts, timeout=600 if q else 1500)] + list(extra_conds),
         explanation='one real endpoint in each of six roles (request-response / request-stream / request-channel, requester '
@@ -503,7 +510,7 @@ def _hist_spec(harness, tier, what, extra_cfgs, extra_conds=(), base=None):
                     "role's alphabet - inbound PAYLOAD (symbolic next/complete/follows flags) / ERROR / CANCEL / REQUEST_N of a "
                     'protocol-legal peer, application cancel (optionally racing the next event) / emit / complete / fail / '
                     'request(n), connection loss by EOF / transport error / close() - then a final connection loss. ' + what,
-        bounds=['k <= %d events per history (first %d fixed per process, rest symbolic), all six roles' % (k, 1 if q else 2),
+        bounds=['k <= %s events per history (leading events fixed per process, rest symbolic), all six roles' % ('3 (2 in the extra configurations)' if q else '4 for request-response/request-stream roles, 3 for channel roles and the extra configurations'),
                 'request-n 31-bit symbolic; configurations: plain%s' % ''.join(', ' + '+'.join(sorted(c)) for c in extra_cfgs),
                 'peer behaviour filtered by the legality automaton in harness/hist.py (what this library itself may emit)',
                 '%d partitions' % len(parts)],
@@ -522,6 +529,15 @@ def spec_c07(tier, seed):
 
 
 def spec_c08(tier, seed):
+    s = _spec_c08(tier, seed)
+    # request-n as a full-width symbolic value in the short requester histories (elsewhere only its sign matters)
+    hist = s['conds'][0]
+    extra = [dict(p, nsym=True) for p in _hist_parts(2, 1, [], roles=('rs_req', 'ch_req', 'rs_resp'))]
+    hist.parts = hist.parts + extra
+    return s
+
+
+def _spec_c08(tier, seed):
     return _hist_spec('c08_wire_legality', tier,
                       'Monitor: the role automaton of vlib/roles.py over every emitted frame, judged against the frames received '
                       'before it (SETUP first and once, parity, streams begin with a request, allowed types per model and role, '
@@ -564,7 +580,7 @@ def spec_c11(tier, seed):
     for role in ('server', 'client'):
         for mi, (own, inb) in enumerate(mixes):
             for mode in range(4):
-                if q and (mi + mode + (role == 'client')) % 2 == 1:
+                if q and ((mi + mode + (role == 'client')) % 2 == 1 or (mi == 3 and mode in (1, 2))):
                     continue
                 parts.append({'role': role, 'own': own, 'inb': inb, 'mode': mode, 'raising': False, 'frag_tail': True})
         for mode in ((1,) if q else (0, 1, 2, 3)):
@@ -657,9 +673,9 @@ def spec_c17(tier, seed):
     for cause in range(4):
         parts.append({'cause': cause, 'rounds': 1})
         for p in pends:
-            if q and (p[0] != p[1]):
+            if q and (p[0] != p[1] or (cause == 2 and p[2] == 1)):
                 continue
-            parts.append({'cause': cause, 'rounds': 2, 'pend': p})
+            parts.append({'cause': cause, 'rounds': 2, 'pend': p, 'idle_max': 1100000 if q else 2500000})
         if not q:
             parts += [{'cause': cause, 'rounds': 3, 'pend': p} for p in pends if p[2] == 0]
     return dict(
